@@ -40,7 +40,8 @@ EXPLANATION = (
 )
 # obligations added during the build phase (seeding rounds, twins, mutation analysis)
 ADDED_IN_BUILD = ' Also: np.linalg.det is modelled (sign = determinant sign, log(det) = log|det| where positive) so that a log(det) spelling is compared with the definition instead of leaving the analysed subset. Fixed parameters are analysed in every combination of scalar and per-column components and also as integer-typed values (numpy\'s integer reciprocal / integer power are not 1/x).'
-EXPLANATION = EXPLANATION + ADDED_IN_BUILD
+ADDED_IN_ROUND_9 = " Round 9: empty-batch - a fast path for an empty batch of cuts (a path whose facts say that there is no cut) must return an array without rows and with the cost's number of columns; it scores nothing and is exempt from the per-cut obligations (determinant test, row-wise value); a fast path for a batch of one cut is not."
+EXPLANATION = EXPLANATION + ADDED_IN_BUILD + ADDED_IN_ROUND_9
 
 ASSUMPTIONS = [
     "Python's ast module and evaluation-order/argument-binding semantics as implemented in skverif/symex.py",
